@@ -448,7 +448,7 @@ func eventPayloadOK(fn *ssa.Function, payload ssa.Value, arg ssa.Value, stored M
 			continue
 		}
 		_, st := ownerOfFieldBase(fa.X.Type())
-		name := st.Field(fa.Field).Name()
+		name := fieldNameOf(st.Field(fa.Field))
 		for _, rr := range *fa.Referrers() {
 			if s, ok := rr.(*ssa.Store); ok && s.Addr == fa {
 				switch name {
